@@ -44,8 +44,8 @@ PROFILES = {
     'enc': {'p_enc': 0.8, 'p_queue': 0.6, 'p_notify': 0.6},
     'queue': {'p_queue': 1.0, 'p_enc': 0.3},
     'mtu': {'p_mtu': 1.0, 'big_values': True, 'p_notify': 0.7},
-    'cccd': {'p_notify': 0.9, 'min_chars': 3, 'p_prio': 0.5, 'p_queue': 0.5, 'p_cccd_cb': 0.8},
-    'notify': {'p_notify': 0.9, 'min_chars': 2, 'p_prio': 0.7},
+    'cccd': {'p_notify': 0.9, 'min_chars': 3, 'p_prio': 0.5, 'p_queue': 0.5, 'p_cccd_cb': 0.8, 'max_cccd': 9},
+    'notify': {'p_notify': 0.9, 'min_chars': 2, 'p_prio': 0.7, 'max_cccd': 8},
     'adv': {'adv': True},
     'nogap': {'p_nogap': 1.0},
 }
@@ -55,7 +55,7 @@ MTUS = [23, 24, 27, 48, 65, 158, 247, 300]
 
 def gen_spec(r, profile='default', exclude=()):
     P = dict(p_fixed_svc=0.3, p_fixed_chr=0.25, p_include=0.2, p_secondary=0.25, p_enc=0.4, p_queue=0.5, p_mtu=0.6,
-             p_notify=0.5, p_prio=0.3, p_nogap=0.3, p_cccd_cb=0.3, min_services=1, min_chars=0, big_values=False, adv=False)
+             p_notify=0.5, p_prio=0.3, p_nogap=0.3, p_cccd_cb=0.3, min_services=1, min_chars=0, big_values=False, adv=False, max_cccd=6)
     P.update(PROFILES.get(profile, {}))
     no_mixed_uuid = 'mixed-uuid' in exclude
 
@@ -98,6 +98,7 @@ def gen_spec(r, profile='default', exclude=()):
         return [16, chr16[0]]
 
     var_ctr = [0]
+    cccd_ctr = [0]
     for si in range(nsvc):
         is128 = (r.random() < 0.4 or all128) and not all16
         svc = {
@@ -139,7 +140,9 @@ def gen_spec(r, profile='default', exclude=()):
                 c['var'] = var_ctr[0]
                 var_ctr[0] += 1
             can_notify = vk in ('var', 'scalar', 'constvar', 'fixed', 'hblob', 'hraw', 'hrdonly')
-            if can_notify and r.random() < P['p_notify']:
+            # bluetoe's compile time grows exponentially with the number of CCCDs (12: one minute, 16: > 7 minutes)
+            if can_notify and r.random() < P['p_notify'] and cccd_ctr[0] < P['max_cccd']:
+                cccd_ctr[0] += 1
                 c['notify'] = r.random() < 0.7
                 c['indicate'] = r.random() < 0.5 or not c['notify']
             if vk in ('var', 'scalar', 'constvar', 'hblob', 'hraw') and r.random() < 0.2 and 'noread-handler' not in exclude:
